@@ -151,7 +151,7 @@ func scenarios(tier string) []engine.Scenario {
 
 func main() {
 	quickBudget, thoroughBudget := 150*time.Second, 25*time.Minute
-	if os.Getenv("VERIF_C18_CALIBRATE") != "" {
+	if os.Getenv("VERIF_C18_CALIBRATE") != "" || os.Getenv("VERIF_C18_NOBUDGET") != "" {
 		// recording runs must visit every leaf, however loaded the machine is
 		quickBudget, thoroughBudget = 6*time.Hour, 6*time.Hour
 	}
